@@ -1,8 +1,9 @@
 (* UserModel/Atomic.v — the three disciplines a public UserModel method follows when its
    argument is invalid (base/src/user_model/common.rs), over the generic machine:
      Checked     validate, then mutate, then push_diff_list          (most methods)
-     PushFirst   push_diff_list, then call the validating function   (set_timezone, set_locale,
-                 set_frozen_rows_count, set_frozen_columns_count, delete_sheet, paste_csv_string)
+     PushFirst   push_diff_list, then call the validating function   (paste_csv_string; until
+                 the repairs also set_timezone, set_locale, set_frozen_rows_count,
+                 set_frozen_columns_count and delete_sheet)
      PartialLoop mutate item by item, return on the first error, push nothing
                  (set_columns_width/hidden, set_rows_height/hidden, update_range_style,
                   set_area_with_border) *)
